@@ -12,7 +12,7 @@ from . import ops
 from .c02 import splits_pair
 from .common import Recorder, Timeout, time_limit
 
-SCHEMAS = ["basic", "list", "marksx"]
+SCHEMAS = ["basic", "list", "marksx", "note"]
 
 
 def strip(toks):
